@@ -148,8 +148,8 @@ def witnesses(pid, kind):
 
 
 def scenarios_c03(rng, n, depth, maximgs, thorough):
-    w = ["put"] * 5 + ["rem"] * 2 + ["flush"] * 3 + ["idxgc", "prigc", "reopen"]
-    consts = seqeng.kv_consts(6, w, depth, deadlines=(0, 2), lowuses=(0, 85, 101))
+    w = ["put"] * 5 + ["rem"] * 2 + ["flush"] * 3 + ["idxgc", "idxgc", "prigc", "reopen"]
+    consts = seqeng.kv_consts(6, w, depth, deadlines=(0, 0, 1, 2, 3, 5), lowuses=(0, 85, 101))
     hs, r = seqeng.gen_histories(consts, "sim", num=n, seed=vlib.seed())
     cfgs = seqeng.sweep(rng, max(8, n), primaries=("mh", "mh", "mh", "cid"), limits=(30, 70, 200, 1 << 30), imm=(False, False, True))
     return [{"cfg": cfgs[i % len(cfgs)], "ops": h, "maxImgs": maximgs, "cont": CONT, "mode": "", "seed": vlib.seed() * 1000 + i, "allTorn": thorough} for i, h in enumerate(hs)], r
